@@ -567,6 +567,13 @@ func (c *EWCase) Run() string {
 	}
 	ewLast.Result = arrOf(rd)
 	ewLast.Computed = true
+	// the delivered tensor is consistent in itself: observers that trust its flags (whole-tensor views,
+	// leading-axis cuts, a clone, each materialised) read the same array
+	if !hasUndef && c.A.Mask == nil && (c.B == nil || c.B.Mask == nil) && (c.Dst == nil || c.Dst.Mask == nil) && !inexact && len(want.Shape) > 0 && c.Mode != "incr" {
+		if m := derivedProbe(rd, arrOf(rd)); m != "" {
+			return desc + ": the delivered tensor reads correctly element by element, but " + m
+		}
+	}
 	// ---- nothing but the destination was modified
 	if dest != A && !inF17(c) {
 		if m := A.unchanged("operand a"); m != "" {
